@@ -56,7 +56,9 @@ RULE = ("seeded request/response pairs (1-2 per run) over every cross-version pa
         "trailers, Host/:authority, mixed-case names, hop-by-hop fields, chunked/close-delimited/HTTP/1.0 bodies, HEAD, "
         "204/304) x 0-2 adversarial edits for HTTP/2-3 senders (CR/LF/NUL/SP in pseudo-headers, names, values; upper-case "
         "names; connection-specific fields; transfer-encoding: chunked with a smuggling body; lying content-length; "
-        "duplicate/missing/misplaced/unknown pseudo-headers; Host vs :authority) x byte segmentation; non-trivial = at "
+        "duplicate/missing/misplaced/unknown pseudo-headers; Host vs :authority) x for HTTP/2 senders PADDED DATA frames "
+        "(pad length 0-255) with content-length equal to the body, off by 1-2 or counting the padding, ending with "
+        "END_STREAM on DATA or with a trailers HEADERS frame x byte segmentation; non-trivial = at "
         "least one message was delivered to the next hop or explicitly rejected; distinct = distinct abstract logs")
 COMPONENTS_REAL = ["HttpLayer / HttpStream", "Http1Server / Http1Client (h11 readers, http1.assemble)", "Http2Server / Http2Client "
                    "(BufferedH2Connection, hyper-h2 validation)", "Http3Server / Http3Client (LayeredH3Connection, aioquic H3 + "
@@ -79,7 +81,9 @@ ASSUMPTIONS = ["default options (validate_inbound_headers on, normalize_outbound
 EXPECTED_PROBES = ["real_h2_h1", "real_h1_h2", "stub_h3_h1", "stub_h3_h2", "stub_h1_h3", "stub_h2_h3", "stub_h2_h1", "stub_h1_h2",
                    "req_delivered", "req_rejected", "resp_delivered", "resp_rejected", "clean_req_checked", "clean_resp_checked",
                    "adversarial_req_forwarded", "adversarial_resp_forwarded", "h1_single_message_checked", "cookies_joined",
-                   "trailers_carried", "body_without_cl_to_h1", "structural_rejected", "te_chunked_attack", "crlf_attack"]
+                   "trailers_carried", "body_without_cl_to_h1", "structural_rejected", "te_chunked_attack", "crlf_attack",
+                   "padded_data_req", "padded_data_resp", "padded_data_then_trailers", "cl_counts_padding_req",
+                   "cl_counts_padding_resp", "cl_counts_padding_then_trailers", "cl_off_by_few_padded"]
 
 MARK = re.compile(rb"mk(\d\d)x")
 HOP = {b"connection", b"keep-alive", b"proxy-connection", b"transfer-encoding", b"upgrade", b"te", b"trailer",
@@ -204,6 +208,55 @@ def gen_request(r, m, cver, sver, scheme="https"):
     return req
 
 
+def pad_total(part) -> int:
+    """Octets the PADDED DATA frames of this message carry besides the body (pad octets + one pad-length octet each)."""
+    n = len(part.get("chunks") or [])
+    return sum(int(p) + 1 for p in (part.get("pads") or [])[:n] if p is not None)
+
+
+def cl_value(part) -> str:
+    """The content-length announcement.  Symbolic forms stay meaningful when the shrinker changes chunks / pads:
+    "auto" = the body length, "pad" = body + all padding (= the flow-controlled length of the DATA frames),
+    "padonly" = body + pad octets without the pad-length octets, "auto+N" / "auto-N" = off by N; else literal."""
+    cl = part["cl"]
+    n = sum(len(c) for c in part["chunks"])
+    if cl == "auto":
+        return str(n)
+    if cl == "pad":
+        return str(n + pad_total(part))
+    if cl == "padonly":
+        k = len(part["chunks"])
+        return str(n + sum(int(p) for p in (part.get("pads") or [])[:k] if p is not None))
+    if isinstance(cl, str) and re.match(r"^auto[+-]\d+$", cl):
+        return str(max(0, n + int(cl[4:])))
+    return cl
+
+
+def gen_padding(r, part, m, trailer_names):
+    """Round c: HTTP/2 senders use PADDED DATA frames (pad length 0 included), sometimes announce a content-length
+    that is off by a few octets - among them exactly the padding - and end the stream with a trailers HEADERS
+    frame instead of END_STREAM on the last DATA frame.  Drawn from its own rng site."""
+    if not part["chunks"] or part.get("block") is not None or r.random() >= 0.45:
+        return
+    part["pads"] = [r.choice([None, 0, 0, 1, 2, 3, 7, 16, 100, 255]) for _ in part["chunks"]]
+    if all(p is None for p in part["pads"]):
+        part["pads"][r.randrange(len(part["pads"]))] = r.choice([0, 1, 5, 30])
+    if any(a.startswith(("cl_", "te_", "body_")) for a in part["attacks"]) or part.get("structural"):
+        return
+    x = r.random()
+    if x < 0.5:
+        lie = _wchoice(r, [("pad", 5), ("padonly", 2), ("auto+1", 1), ("auto-1", 1), ("auto+2", 1), ("auto-2", 1)])
+        part["cl"] = lie
+        if cl_value(part) != str(sum(len(c) for c in part["chunks"])):
+            part["attacks"].append({"pad": "cl_pad_exact", "padonly": "cl_pad_octets"}.get(lie, "cl_off_small"))
+        else:
+            part["cl"] = "auto"
+    elif x < 0.75:
+        part["cl"] = "auto"
+    if part["trailers"] is None and r.random() < 0.6:
+        part["trailers"] = [[trailer_names, m]]
+
+
 def block_of(req):
     """The HTTP/2 / HTTP/3 header block of a canonical request."""
     if req.get("block") is not None:
@@ -214,7 +267,7 @@ def block_of(req):
     b.append([":path", req["path"]])
     b += req["fields"]
     if req.get("cl") is not None:
-        b.append(["content-length", str(sum(len(c) for c in req["chunks"])) if req["cl"] == "auto" else req["cl"]])
+        b.append(["content-length", cl_value(req)])
     return b
 
 
@@ -417,7 +470,7 @@ def resp_block_of(resp):
     b = [[":status", resp["status_raw"] if resp.get("status_raw") is not None else str(resp["status"])]]
     b += resp["fields"]
     if resp.get("cl") is not None:
-        b.append(["content-length", str(sum(len(c) for c in resp["chunks"])) if resp["cl"] == "auto" else resp["cl"]])
+        b.append(["content-length", cl_value(resp)])
     return b
 
 
@@ -517,6 +570,12 @@ def generate(rng, tier):
         req = gen_request(r, m, cver, sver, scheme="http" if engine == "stub" else "https")
         resp = gen_response(r, m, cver, sver, req)
         msgs.append({"mk": m, "req": req, "resp": resp})
+    rp = rng.at("c06-pad")
+    for msg in msgs:
+        if cver == "h2":
+            gen_padding(rp, msg["req"], msg["mk"], "x-qt")
+        if sver == "h2":
+            gen_padding(rp, msg["resp"], msg["mk"], "x-rt")
     sc = {"family": f"{engine}:{cver}-{sver}", "engine": engine, "cver": cver, "sver": sver,
           "mode": r.choice(["regular", "reverse"]) if engine == "real" else "regular",
           "eager": r.random() < 0.5, "options": {}, "messages": msgs}
@@ -758,7 +817,8 @@ def run_stub(sc):
                             if resp is None:
                                 ok = peer.send_message(sid, [[":status", "200"], ["x-default", "1"]], [], None)
                             else:
-                                ok = peer.send_message(sid, resp_block_of(resp), resp["chunks"], resp["trailers"])
+                                ok = peer.send_message(sid, resp_block_of(resp), resp["chunks"], resp["trailers"],
+                                                       pads=resp.get("pads"))
                                 if ok:
                                     current["rec"]["resp_sent"] = True
                     back = peer.take()
@@ -832,7 +892,7 @@ def run_stub(sc):
             if cp.proto_error is not None or cp.goaway is not None:
                 rec["notes"].append("not_sent_connection_gone")
                 continue
-            ok = cp.send_message(sid, block_of(req), req["chunks"], req["trailers"])
+            ok = cp.send_message(sid, block_of(req), req["chunks"], req["trailers"], pads=req.get("pads"))
             if not ok:
                 raise ST.StubHarnessError("h2 client peer cannot send its scripted request")
             rec["req_sent"] = True
@@ -970,7 +1030,7 @@ def run_real(sc):
                     for m in sc["messages"]:
                         rp = m["resp"]
                         responses[m["mk"]] = {"delay": rp.get("delay", 0), "headers": resp_block_of(rp), "chunks": rp["chunks"],
-                                              "trailers": rp["trailers"], "gaps": rp.get("gaps", [])}
+                                              "trailers": rp["trailers"], "gaps": rp.get("gaps", []), "pads": rp.get("pads")}
                     spec = {"responses": responses, "default_response": {"headers": [[":status", "200"], ["x-default", "1"]], "chunks": []},
                             "idle_close": 60.0}
                     tls = T.TlsStream(conn, T.origin_context(["h2"]), server_side=True)
@@ -1015,7 +1075,8 @@ def run_real(sc):
                 if cl.dead():
                     rec["note"] = "not_sent_connection_gone"
                     continue
-                cl.spec["streams"][k] = {"headers": block_of(rq), "chunks": rq["chunks"], "trailers": rq["trailers"]}
+                cl.spec["streams"][k] = {"headers": block_of(rq), "chunks": rq["chunks"], "trailers": rq["trailers"],
+                                         "pads": rq.get("pads")}
                 frames = [{"s": k, "t": "H", "end": not rq["chunks"] and not rq["trailers"]}]
                 for i in range(len(rq["chunks"])):
                     frames.append({"s": k, "t": "D", "i": i, "end": i == len(rq["chunks"]) - 1 and not rq["trailers"]})
@@ -1593,6 +1654,18 @@ def oracle(sc, obs, crash):
             continue
         if o["up_strict_error"] or o["down_strict_error"]:
             peer_dead = True
+        for side, was_sent in (("req", True), ("resp", o["resp_sent"])):
+            part = msg[side]
+            if was_sent and part.get("pads") and any(p is not None for p in part["pads"][:len(part["chunks"])]):
+                probe(f"padded_data_{side}")
+                if part["trailers"]:
+                    probe("padded_data_then_trailers")
+                if "cl_pad_exact" in part["attacks"]:
+                    probe(f"cl_counts_padding_{side}")
+                    if part["trailers"]:
+                        probe("cl_counts_padding_then_trailers")
+                if "cl_off_small" in part["attacks"] or "cl_pad_octets" in part["attacks"]:
+                    probe("cl_off_by_few_padded")
         delivered = judge_request(sc, msg, o, add, probe)
         if delivered and o["resp_sent"]:
             judge_response(sc, msg, o, add, probe)
@@ -1617,7 +1690,7 @@ def shrink_candidates(sc):
                     c = copy.deepcopy(sc)
                     del c["messages"][mi][side]["fields"][fi]
                     yield c
-            for key, val in (("trailers", None), ("cl", None), ("cuts", []), ("gaps", [])):
+            for key, val in (("trailers", None), ("cl", None), ("cuts", []), ("gaps", []), ("pads", None)):
                 if part.get(key) not in (None, []):
                     c = copy.deepcopy(sc)
                     c["messages"][mi][side][key] = val
